@@ -35,6 +35,8 @@ var (
 		"--no-ext-diff",
 		"--no-textconv",
 		"--color=never",
+		"--src-prefix=a/",   // the parser below relies on the default prefixes,
+		"--dst-prefix=b/",   // whatever diff.noprefix or diff.mnemonicPrefix say
 		"-G", "oid sha256:", // only diffs which include an lfs file SHA change
 		"-p",                             // include diff so we can read the SHA
 		"-U12",                           // Make sure diff context is always big enough to support 10 extension lines to get whole pointer
